@@ -770,6 +770,8 @@ func c09gen(c *h.Ctx, yield func(*h.Case)) {
 		// corpus: the SendRaw witness (fixed in /repo) and every entry point towards a peer
 		// that never listened
 		emit("corpus-sendraw", "c09 open "+tr+" 0", "c09 send router 1 1", "c09 send raw 1 1")
+		emit("corpus-root-has-no-parent", "c09 open "+tr+" 0,1", "c09 send parent - 1", "c09 send children - 1",
+			"c09 send parent 1 1", "c09 send broadcast 1,0 1")
 		ops := []string{"c09 open " + tr + " 0,2"}
 		for _, e := range entriesSingle {
 			ops = append(ops, "c09 send "+e+" 1 1")
